@@ -115,6 +115,25 @@ def source_for(sc, k):
     sig = ", ".join(parts)
     pad = "".join("# pad %d\n" % j for j in range(ver.get("pad", 0)))
     kind = ver.get("kind", "def")
+    if ver.get("slots") is not None:
+        # position-aware edits: every literal sits on its own physical line; the final statement spans several
+        # lines (tuple / list / dict literals continued over lines, implicit string concatenation, backslash
+        # continuation, a comment line inside parentheses) and its trailing lines carry no bytecode of their own
+        S = ver["slots"]
+        body = ("def g(x):\n"
+                "    _COUNT[0] += 1\n"
+                "    a = %d\n"
+                "    b = (x,\n"
+                "         %d)\n"
+                "    c = 'p' \\\n"
+                "        'q%d'\n"
+                "    return ('vm', (('x', x),), a, b, c, [%d,\n"
+                "            %d], {'k':\n"
+                "            %d}, (0.25,\n"
+                "            %d,\n"
+                "            # trailing comment inside the parentheses\n"
+                "            0.%d))\n" % tuple(S))
+        return pad + "_COUNT = [0]\n" + body
     if kind == "factory":
         # two objects made by ONE factory share their code object and differ in __defaults__/__kwdefaults__
         dflt = "{%s}" % ", ".join("%r: %r" % (n, dec(d)) for n, _, d in params if d is not None)
@@ -229,6 +248,33 @@ def main():
                 counts[k] = ns["_COUNT"]
                 wraps.pop(k, None)
                 res["o"] = "done"
+            elif kind == "hotreload":
+                # the file of object k is edited in place and the new code object is installed into the EXISTING
+                # function object (what %autoreload does); the long-lived MemorizedFunc stays.  From now on the
+                # object is addressed as k2 (= object k with the text of version k2).
+                k, k2 = ev[1], ev[2]
+                ver = sc["versions"][str(k2)]
+                src = source_for(sc, k2)
+                path = os.path.join(moddir, ver["path"])
+                with open(path, "w") as fh:
+                    fh.write(src)
+                scratch = {"__name__": objs[k].__module__}
+                exec(compile(src, path, "exec"), scratch)
+                objs[k].__code__ = scratch["g"].__code__
+                ns2 = {"__name__": "verifplain"}
+                exec(compile(src, path + ".plain", "exec"), ns2)
+                objs[k2], counts[k2], plains[k2] = objs[k], counts[k], ns2["g"]
+                if k in wraps:
+                    wraps[k2] = wraps[k]
+                res["o"] = "done"
+            elif kind == "recode":
+                # the code object is replaced by a freshly compiled EQUAL one (file untouched)
+                k = ev[1]
+                src = source_for(sc, k)
+                scratch = {"__name__": objs[k].__module__}
+                exec(compile(src, os.path.join(moddir, sc["versions"][str(k)]["path"]), "exec"), scratch)
+                objs[k].__code__ = scratch["g"].__code__
+                res["o"] = "skip"
             elif kind == "wrap":
                 k = ev[1]
                 wraps[k] = mem.cache(objs[k], ignore=list(sc["ignore"]),
